@@ -101,7 +101,7 @@ def _utf8_ok(s):
 
 
 def real_eval_text(text):
-    """compile + evaluate + convert_bools of a CEL text -> ("val", v) | ("parse",) | ("eval",) | ("other",)"""
+    """compile + evaluate + convert_bools of a CEL text -> ("val", v) | ("parse",) | ("eval",) | ("other",) | ("raise",)"""
     import celpy
     from koreo.cel.encoder import convert_bools
     from koreo.cel.evaluation import evaluate
@@ -117,9 +117,10 @@ def real_eval_text(text):
     try:
         out = evaluate(prog, {}, "c11")
     except Exception:
-        # evaluate() itself raised (e.g. celpy's tree_dump fails with IndexError while the error of `1[2]`
-        # is reported; see notes): never a literal of the fragment, the model must decline it
-        return ("other",)
+        # evaluate() itself raised: celpy's tree_dump fails with IndexError while an evaluation error (of
+        # `1[2]`, or of a bad octal escape in `{"\858":{}}`) is being reported; see notes.  The model may
+        # decline the text or call it an evaluation error.
+        return ("raise",)
     if isinstance(out, PermFail):
         return ("eval",)
     v = convert_bools(out)
@@ -509,7 +510,7 @@ def term_encode(v, out):
 
 
 def term_eval(text, obs, image=False):
-    o = {"parse": "OParse", "eval": "OEval", "other": "OOther"}.get(obs[0])
+    o = {"parse": "OParse", "eval": "OEval", "other": "OOther", "raise": "ORaise"}.get(obs[0])
     if o is None:
         o = f"(OVal {cjson(obs[1])})"
     return f"{'CEvalImg' if image else 'CEval'} {cstr(text)} {o}"
@@ -805,7 +806,7 @@ def run(ctx: Ctx):
         kind = None
         if plain:
             o = real_eval_text(s)
-            kind = "KFloat" if (o[0] == "other" or (o[0] == "val" and type(o[1]) is float)) else "KInt"
+            kind = "KFloat" if (o[0] == "other" or (o[0] == "val" and type(o[1]) is float)) else "KInt"   # other = inf
         if s and not s.startswith("="):
             num_cases.append({"kind": "numeral", "text": s})
             num_terms.append(f"CNumeral {cstr(s)} {copt(kind, str)}")
